@@ -143,7 +143,7 @@ def oracle(history, steps):
             if not isinstance(got, list) or len(got) != 1 or got[0] != d:
                 fails.append((i, 'lookup', 'find({_id: %r}) returned %r' % (idv, got)))
         prev_ids = ids
-        if fails:
+        if any(l not in known_labels for (_, l, _) in fails) or len(fails) > 50:
             break
     return fails
 
